@@ -9,7 +9,7 @@ S=/tmp/mutrepo-$NAME-$$
 rm -rf "$S"; mkdir -p "$S/src" "$S/evidence" "$S/replays"
 cp /repo/*.hpp /repo/*.cpp "$S/src/"
 (cd "$S/src" && git init -q . && git add -A >/dev/null && git -c user.email=x -c user.name=x commit -q -m base && git apply --whitespace=nowarn "$PATCH") || { echo "PATCH DOES NOT APPLY"; rm -rf "$S"; exit 3; }
-cd /verif
+cd ${VERIF_DIR:-/verif}
 RC=0
 for P in "$@"; do
   VERIF_REPO="$S/src" VERIF_EVID_DIR="$S/evidence" VERIF_REPLAY_DIR="$S/replays" ./check "$P" --tier ${TIER:-quick} 2>&1 | grep -E "VIOLATION|class=|KNOWN|runs,|GATE|INFRA|BUILD|error" | cut -c1-400 || true
